@@ -19,6 +19,8 @@ OptimalGeGreedy == Score(S, o) >= Score(S, g)
 OptimalIsFirst == \A p \in Perms(K) : Score(S, p) = Score(S, o) => LexLe(o, p)
 \* the loop transcription (generation order, strict improvement) = declarative definition
 OptimalSeqAgrees == OptimalSeq(S) = o
+\* the fold used by the trace specs equals the declarative maximum
+MaxSeqAgrees == MaxScoreSeq(S) = MaxScore(S) /\ PermSet(K) = Perms(K)
 \* greedy picks a global maximum first
 GreedyTakesMax == \E i \in 1..K : \A a, b \in 1..K : S[a][b] <= S[i][g[i]]
 \* relabelling rows and columns consistently relabels the optimum value
